@@ -7,6 +7,8 @@ package verifhook
 import (
 	"time"
 
+	"go.uber.org/zap"
+
 	"github.com/linkedin/Burrow/core/internal/evaluator"
 	"github.com/linkedin/Burrow/core/protocol"
 )
@@ -50,3 +52,22 @@ func (e *Evaluator) AgeCache(d time.Duration) { e.m.VerifAgeCache(d) }
 
 // Module returns the underlying module.
 func (e *Evaluator) Module() *evaluator.CachingEvaluator { return e.m }
+
+// EvaluatorCoordinator is a handle on a real, started evaluator.Coordinator: real Configure (from viper), real Start —
+// the module's main loop and the request forwarder that serves the application's EvaluatorChannel.
+type EvaluatorCoordinator struct {
+	c *evaluator.Coordinator
+}
+
+// StartEvaluatorCoordinator configures and starts the evaluator coordinator on app.
+func StartEvaluatorCoordinator(app *protocol.ApplicationContext) (*EvaluatorCoordinator, error) {
+	c := &evaluator.Coordinator{App: app, Log: zap.NewNop()}
+	c.Configure()
+	if err := c.Start(); err != nil {
+		return nil, err
+	}
+	return &EvaluatorCoordinator{c: c}, nil
+}
+
+// Stop stops the coordinator and its module.
+func (e *EvaluatorCoordinator) Stop() error { return e.c.Stop() }
